@@ -83,7 +83,11 @@ func (m *C09) After(w *world.World, a *world.Action) {
 		return
 	}
 	ok := a.Res.OK()
-	m.R.Judge("send/"+a.Kind+"/"+okStr(ok), a.Mut, logClass(a.Res.Log), a.Kind)
+	relayed, dst := false, ""
+	if a.Packet != nil {
+		relayed, dst = a.Packet.RelayChain != "", a.Packet.DestinationChain
+	}
+	m.R.Judge("send/"+a.Kind+"/"+okStr(ok), a.Mut, logClass(a.Res.Log), a.On.Name, dst, relayed, world.NextSend(a.On, a.On.Name, dst) > 3)
 	if !ok {
 		m.R.Count("send-failed", 1)
 		if len(a.Res.Diff) != 0 {
